@@ -33,7 +33,8 @@ def case_(draw, tier):
             "kw": {"scheduler": draw(st.sampled_from(["ltf", "vectorized_ltf", "new_ltf"])), "order": draw(st.sampled_from([-1, 0, 1, 2])),
                    "win": draw(st.sampled_from(["kaiser", "hann"])), "Jdes": draw(st.integers(10, 40)), "Kdes": draw(st.integers(5, 40)),
                    "Lmin": draw(st.sampled_from([8, 16, 64])), "psll": draw(st.sampled_from([200, 100]))},
-            "analytic": q <= (4 if tier == "thorough" else 3)}
+            "analytic": q <= (4 if tier == "thorough" else 3),
+            "dtype0": draw(st.sampled_from(["float64", "float64", "int64", "float32", "list"])), "which0": draw(st.integers(0, 3))}
 
 
 def mix_matrix(rng, q):
@@ -54,8 +55,21 @@ def oracle(case):
     src = rng.standard_normal((q, N))
     M = mix_matrix(rng, q) if q > 1 else np.ones((1, 1))
     inputs = [np.ascontiguousarray(r) for r in (M @ src)]
+    # one input (often the first) stored as raw integer counts / float32 / a python list: the values are made exactly
+    # representable first, so every relation between the records is unchanged
+    k0 = case.get("which0", 0) % q if case.get("dtype0", "float64") != "float64" else None
+    if k0 is not None:
+        if case["dtype0"] == "int64":
+            inputs[k0] = np.round(inputs[k0] * 1000.0)
+        elif case["dtype0"] == "float32":
+            inputs[k0] = inputs[k0].astype(np.float32).astype(np.float64)
     out = sum(c * delay(x, d) for c, x, d in zip(case["coefs"], inputs, case["delays"])) + case["sigma"] * rng.standard_normal(N)
     viol = []
+    inputs64 = [np.asarray(v, dtype=np.float64) for v in inputs]
+    if k0 is not None:
+        typed = {"int64": lambda v: v.astype(np.int64), "float32": lambda v: v.astype(np.float32), "list": lambda v: [float(t) for t in v]}
+        inputs = list(inputs)
+        inputs[k0] = typed[case["dtype0"]](inputs64[k0])
     f, a_num = systems.MISO_numeric_optimal_spectral_analysis(inputs, out, fs, **kw)
     ref = compute_spectrum(out, fs, **kw)
     K = np.asarray(ref.navg)
@@ -94,11 +108,11 @@ def oracle(case):
     A = np.zeros((nf, q, q), dtype=complex)
     sv = np.zeros((nf, q), dtype=complex)
     for i in range(q):
-        pi = compute_spectrum(np.vstack([inputs[i], out]), fs, **kw)
+        pi = compute_spectrum(np.vstack([inputs64[i], out]), fs, **kw)
         sv[:, i] = np.conj(np.asarray(pi.Gxy))
         A[:, i, i] = np.asarray(pi.Gxx)
         for j in range(i + 1, q):
-            pij = compute_spectrum(np.vstack([inputs[i], inputs[j]]), fs, **kw)
+            pij = compute_spectrum(np.vstack([inputs64[i], inputs64[j]]), fs, **kw)
             A[:, i, j] = np.conj(np.asarray(pij.Gxy))
             A[:, j, i] = np.asarray(pij.Gxy)
     a_ref = np.zeros(nf)
@@ -117,17 +131,18 @@ def oracle(case):
         _, a_perm = systems.MISO_numeric_optimal_spectral_analysis([inputs[i] for i in perm], out, fs, **kw)
         same(a_perm, a_num, "permutation")
         M2 = mix_matrix(rng, q)
-        _, a_mix = systems.MISO_numeric_optimal_spectral_analysis([np.ascontiguousarray(r) for r in (M2 @ np.vstack(inputs))], out, fs, **kw)
+        _, a_mix = systems.MISO_numeric_optimal_spectral_analysis([np.ascontiguousarray(r) for r in (M2 @ np.vstack(inputs64))], out, fs, **kw)
         same(a_mix, a_num, "remix")
     else:
         _, a_siso = systems.SISO_optimal_spectral_analysis(inputs[0], out, fs, **kw)
-        pair = compute_spectrum(np.vstack([inputs[0], out]), fs, **kw)
+        pair = compute_spectrum(np.vstack([inputs64[0], out]), fs, **kw)
         expect = np.sqrt(np.asarray(pair.Gyy) * (1 - np.asarray(pair.coh)).clip(min=0))
         same(a_siso, expect, "SISO_vs_Gyy(1-coh)", 1e-6)
         same(a_siso, a_num, "SISO_vs_MISO_numeric", 1e-6)
         bounds(a_siso, "siso")
     nontrivial = (q >= 2) or (q == 1 and case["delays"][0] >= 1)
-    labels = ["q=%d" % q, "static" if static else "dynamic", "analytic" if case["analytic"] else "numeric-only"]
+    labels = ["q=%d" % q, "static" if static else "dynamic", "analytic" if case["analytic"] else "numeric-only",
+              "dtype0:" + case.get("dtype0", "float64")]
     if q == 1 and case["delays"][0] >= 1:
         labels.append("siso-delayed")
     return Res(viol, nontrivial and bool(strong.any()), labels)
